@@ -423,7 +423,15 @@ func main() {
 		}
 		if i < nKnown {
 			f := knownFs[i]
-			if cl := listedClasses(f.ID); len(cl) > 0 && !contains(cl, class) {
+			switch cl := listedClasses(f.ID); {
+			case f.Status == "fixed":
+				// a repaired finding: its class is gone from the classification, the replay input
+				// must now lie in the domain of the theorem (and pass: StillFails is reported as a
+				// VIOLATION by tools/check.py)
+				if class != "in-domain" {
+					run.Errorf("fixed finding %s: its replay input has class %q, expected in-domain", f.ID, class)
+				}
+			case len(cl) > 0 && !contains(cl, class):
 				run.Errorf("finding %s: its replay input has class %q, the entry lists %v", f.ID, class, cl)
 			}
 			run.Res.Known = append(run.Res.Known, common.KnownReplay{ID: f.ID, Status: f.Status, What: f.What, StillFails: !same,
